@@ -84,10 +84,15 @@ structure RtCase where
   codec : Codec
   pkts : List Pkt
   chunks : List Nat
+  eager : Bool := false     -- tail token `eof+` / `err+`: the end of the stream arrives with the last bytes
+
+/-- `eof` / `err`, with `+` appended when the transport reports the end together with the last bytes. -/
+def tailE (s : String) : Option (Tail × Bool) :=
+  if s.endsWith "+" then (tailOfString (s.dropRight 1)).map (·, true) else (tailOfString s).map (·, false)
 
 def parseRt : List String → Option RtCase
   | tl :: "tbl" :: n :: ts => do
-    let tail ← tailOfString tl
+    let (tail, eager) ← tailE tl
     let n ← n.toNat?
     let (tbl, ts) ← parsePairs n ts
     match ts with
@@ -99,7 +104,7 @@ def parseRt : List String → Option RtCase
         let k ← k.toNat?
         let (sz, _) ← takeN k ts
         let sz ← natList sz
-        pure ⟨tail, codecOfTable tbl, pk, sz⟩
+        pure ⟨tail, codecOfTable tbl, pk, sz, eager⟩
       | _ => none
     | _ => none
   | _ => none
@@ -107,7 +112,7 @@ def parseRt : List String → Option RtCase
 def modelRt (c : RtCase) : Obs × Bytes :=
   let wire := encodeAll c.codec c.pkts
   let src : Src := ⟨chunkBy c.chunks wire, c.tail⟩
-  (readAll c.codec (wire.length + 1) src, wire)
+  (readAllG c.eager c.codec (wire.length + 1) src, wire)
 
 /-- `rt` line: model observation (with the wire bytes the model writer produced).  `limited`: the
 packets were written with a rate limit (`rtl <rate> …`), i.e. through `writeRateLimitedData`. -/
@@ -206,10 +211,11 @@ structure RawCase where
   codec : Codec
   stream : Bytes
   chunks : List Nat
+  eager : Bool := false
 
 def parseRaw : List String → Option RawCase
   | tl :: "ztbl" :: n :: ts => do
-    let tail ← tailOfString tl
+    let (tail, eager) ← tailE tl
     let n ← n.toNat?
     let (ztbl, ts) ← parseOptPairs n ts
     match ts with
@@ -222,7 +228,7 @@ def parseRaw : List String → Option RawCase
         let k ← k.toNat?
         let (sz, _) ← takeN k ts
         let sz ← natList sz
-        pure ⟨tail, ⟨id, optLookup ztbl, optLookup jtbl⟩, st, sz⟩
+        pure ⟨tail, ⟨id, optLookup ztbl, optLookup jtbl⟩, st, sz, eager⟩
       | _ => none
     | _ => none
   | _ => none
@@ -231,7 +237,7 @@ def runRawModel (ts : List String) : String :=
   match ts with
   | "raw" :: rest =>
     match parseRaw rest with
-    | some c => obsStr (readAll c.codec (c.stream.length + 1) ⟨chunkBy c.chunks c.stream, c.tail⟩)
+    | some c => obsStr (readAllG c.eager c.codec (c.stream.length + 1) ⟨chunkBy c.chunks c.stream, c.tail⟩)
     | none => "bad-case"
   | _ => "bad-case"
 
